@@ -484,18 +484,18 @@ Section Model.
                              value_checked_add t (value_new f))) (fun ot0 =>
     (mkSt m0 it0 ot0 [], Done tt))).
 
-  Definition add_inputs_from (strat : strategy) (cs : list N) (offered : list utxo) (sc : scenario)
+  (* "just add first input, to cover needs of one input": the vector of UTxOs that remain selectable, the state *)
+  Definition prestep (offered : list utxo) (st0 : sel_state) : list utxo * (sel_state * outcome unit) :=
+    if (coin (st_out st0) <=? coin (st_in st0)) && is_nil (st_inputs st0) then
+      match rev offered with
+      | [] => (offered, (st0, Failed))                           (* "No inputs to add…" *)
+      | u :: _ => (removelast offered, add_input (v_prestep_fee v) (length offered - 1) u st0)
+      end
+    else (offered, (st0, Done tt)).
+
+  (* match strategy { … } *)
+  Definition run_strategy (strat : strategy) (cs : list N) (avail : list utxo) (sc : scenario) (st1 : sel_state)
     : sel_state * outcome unit :=
-    let '(st0, x0) := initial_state sc in
-    obind st0 x0 (fun _ =>
-    let '(avail, (st1, x1)) :=
-      if (coin (st_out st0) <=? coin (st_in st0)) && is_nil (st_inputs st0) then
-        match rev offered with
-        | [] => (offered, (st0, Failed))                           (* "No inputs to add…" *)
-        | u :: _ => (removelast offered, add_input (v_prestep_fee v) (length offered - 1) u st0)
-        end
-      else (offered, (st0, Done tt)) in
-    obind st1 x1 (fun _ =>
     let all := seq 0 (length avail) in
     match strat with
     | LargestFirst =>
@@ -514,7 +514,14 @@ Section Model.
         obind st2 x2 (fun '(aset, cs2) =>
         let '(st3, x3) := ri_by ByCoin false avail (sc_outputs sc) aset cs2 st2 in
         obind st3 x3 (fun '(aset3, cs3) => phase3 (S (length aset3)) avail aset3 cs3 st3))
-    end)).
+    end.
+
+  Definition add_inputs_from (strat : strategy) (cs : list N) (offered : list utxo) (sc : scenario)
+    : sel_state * outcome unit :=
+    let '(st0, x0) := initial_state sc in
+    obind st0 x0 (fun _ =>
+    let '(avail, (st1, x1)) := prestep offered st0 in
+    obind st1 x1 (fun _ => run_strategy strat cs avail sc st1)).
 End Model.
 
 (* the code before the repairs of this property, and the code as it is now *)
